@@ -227,9 +227,9 @@ def hasContent (e : Event) : Bool :=
   else true
 
 theorem decode_fields {kvs : List (Bytes × JVal)} {nm : MemberContent} (h : decodeMemberContent (some (.obj kvs)) = .ok nm) :
-    nm.membership = (decString (lookupField kvs b!"membership")).val
-    ∧ nm.thirdPartyInvite = (decodeThirdParty (lookupField kvs b!"third_party_invite")).val
-    ∧ nm.authorisedVia = (decString (lookupField kvs b!"join_authorised_via_users_server")).val := by
+    nm.membership = (decString (lookupExact kvs b!"membership")).val
+    ∧ nm.thirdPartyInvite = (decodeThirdParty (lookupExact kvs b!"third_party_invite")).val
+    ∧ nm.authorisedVia = (decString (lookupExact kvs b!"join_authorised_via_users_server")).val := by
   unfold decodeMemberContent at h
   simp only at h
   split at h
@@ -253,9 +253,9 @@ theorem needed_member (e : Event) (ht : (e.type == b!"m.room.member") = true) (c
     ∧ (b!"m.room.member", e.sender) ∈ neededPairs (stateNeeded e)
     ∧ (∀ k, e.stateKey = some k → (b!"m.room.member", k) ∈ neededPairs (stateNeeded e))
     ∧ (∀ kvs, c = .obj kvs →
-        let m := (decString (lookupField kvs b!"membership")).val
-        let tp := (decodeThirdParty (lookupField kvs b!"third_party_invite")).val
-        let av := (decString (lookupField kvs b!"join_authorised_via_users_server")).val
+        let m := (decString (lookupExact kvs b!"membership")).val
+        let tp := (decodeThirdParty (lookupExact kvs b!"third_party_invite")).val
+        let av := (decString (lookupExact kvs b!"join_authorised_via_users_server")).val
         ((m = b!"join" ∨ m = b!"knock") → (b!"m.room.join_rules", []) ∈ neededPairs (stateNeeded e))
         ∧ (av ≠ [] → (b!"m.room.member", av) ∈ neededPairs (stateNeeded e))
         ∧ (∀ s, tp = some s → s.token.isEmpty = false → (b!"m.room.third_party_invite", s.token) ∈ neededPairs (stateNeeded e))) := by
@@ -292,7 +292,7 @@ theorem needed_member (e : Event) (ht : (e.type == b!"m.room.member") = true) (c
         · exact Or.inl (Or.inr ⟨m, hm, rfl⟩)
         · exact Or.inr ⟨t, ht, rfl⟩
     simp only [mem_pairs]
-    cases htp : (decodeThirdParty (lookupField kvs b!"third_party_invite")).val with
+    cases htp : (decodeThirdParty (lookupExact kvs b!"third_party_invite")).val with
     | none =>
       simp only
       refine ⟨by simp, by simp, by simp, ?_, ?_⟩
@@ -302,8 +302,8 @@ theorem needed_member (e : Event) (ht : (e.type == b!"m.room.member") = true) (c
         refine ⟨?_, ?_, ?_⟩
         · intro hm; rcases hm with hm | hm <;> simp [hm]
         · intro hav
-          have hne : (decString (lookupField kvs b!"join_authorised_via_users_server")).val.isEmpty = false := by
-            cases h : (decString (lookupField kvs b!"join_authorised_via_users_server")).val with
+          have hne : (decString (lookupExact kvs b!"join_authorised_via_users_server")).val.isEmpty = false := by
+            cases h : (decString (lookupExact kvs b!"join_authorised_via_users_server")).val with
             | nil => exact absurd h hav
             | cons a t => rfl
           simp [hne]
@@ -319,8 +319,8 @@ theorem needed_member (e : Event) (ht : (e.type == b!"m.room.member") = true) (c
           refine ⟨?_, ?_, ?_⟩
           · intro hm; rcases hm with hm | hm <;> simp [hm]
           · intro hav
-            have hne : (decString (lookupField kvs b!"join_authorised_via_users_server")).val.isEmpty = false := by
-              cases h : (decString (lookupField kvs b!"join_authorised_via_users_server")).val with
+            have hne : (decString (lookupExact kvs b!"join_authorised_via_users_server")).val.isEmpty = false := by
+              cases h : (decString (lookupExact kvs b!"join_authorised_via_users_server")).val with
               | nil => exact absurd h hav
               | cons a t => rfl
             simp [hne]
@@ -333,8 +333,8 @@ theorem needed_member (e : Event) (ht : (e.type == b!"m.room.member") = true) (c
           refine ⟨?_, ?_, ?_⟩
           · intro hm; rcases hm with hm | hm <;> simp [hm]
           · intro hav
-            have hne : (decString (lookupField kvs b!"join_authorised_via_users_server")).val.isEmpty = false := by
-              cases h : (decString (lookupField kvs b!"join_authorised_via_users_server")).val with
+            have hne : (decString (lookupExact kvs b!"join_authorised_via_users_server")).val.isEmpty = false := by
+              cases h : (decString (lookupExact kvs b!"join_authorised_via_users_server")).val with
               | nil => exact absurd h hav
               | cons a t => rfl
             simp [hne]
@@ -342,34 +342,34 @@ theorem needed_member (e : Event) (ht : (e.type == b!"m.room.member") = true) (c
   | bool b =>
     simp only
     refine ⟨?_, ?_, ?_, ?_, ?_⟩
-    · simp [neededPairs, lookupField, decodeThirdParty]
-    · simp [neededPairs, lookupField, decodeThirdParty]
-    · simp [neededPairs, lookupField, decodeThirdParty]
-    · intro k hk; simp [neededPairs, lookupField, decodeThirdParty, hk]
+    · simp [neededPairs, lookupExact, decodeThirdParty]
+    · simp [neededPairs, lookupExact, decodeThirdParty]
+    · simp [neededPairs, lookupExact, decodeThirdParty]
+    · intro k hk; simp [neededPairs, lookupExact, decodeThirdParty, hk]
     · intro kvs hk; cases hk
   | num b =>
     simp only
     refine ⟨?_, ?_, ?_, ?_, ?_⟩
-    · simp [neededPairs, lookupField, decodeThirdParty]
-    · simp [neededPairs, lookupField, decodeThirdParty]
-    · simp [neededPairs, lookupField, decodeThirdParty]
-    · intro k hk; simp [neededPairs, lookupField, decodeThirdParty, hk]
+    · simp [neededPairs, lookupExact, decodeThirdParty]
+    · simp [neededPairs, lookupExact, decodeThirdParty]
+    · simp [neededPairs, lookupExact, decodeThirdParty]
+    · intro k hk; simp [neededPairs, lookupExact, decodeThirdParty, hk]
     · intro kvs hk; cases hk
   | str b =>
     simp only
     refine ⟨?_, ?_, ?_, ?_, ?_⟩
-    · simp [neededPairs, lookupField, decodeThirdParty]
-    · simp [neededPairs, lookupField, decodeThirdParty]
-    · simp [neededPairs, lookupField, decodeThirdParty]
-    · intro k hk; simp [neededPairs, lookupField, decodeThirdParty, hk]
+    · simp [neededPairs, lookupExact, decodeThirdParty]
+    · simp [neededPairs, lookupExact, decodeThirdParty]
+    · simp [neededPairs, lookupExact, decodeThirdParty]
+    · intro k hk; simp [neededPairs, lookupExact, decodeThirdParty, hk]
     · intro kvs hk; cases hk
   | arr b =>
     simp only
     refine ⟨?_, ?_, ?_, ?_, ?_⟩
-    · simp [neededPairs, lookupField, decodeThirdParty]
-    · simp [neededPairs, lookupField, decodeThirdParty]
-    · simp [neededPairs, lookupField, decodeThirdParty]
-    · intro k hk; simp [neededPairs, lookupField, decodeThirdParty, hk]
+    · simp [neededPairs, lookupExact, decodeThirdParty]
+    · simp [neededPairs, lookupExact, decodeThirdParty]
+    · simp [neededPairs, lookupExact, decodeThirdParty]
+    · intro k hk; simp [neededPairs, lookupExact, decodeThirdParty, hk]
     · intro kvs hk; cases hk
 
 /-! ### the check of a fresh context needs only the needed state -/
